@@ -284,6 +284,33 @@ def sqrt_mod(v):
     return r if r * r % PP == v else None
 
 
+def lazy_sum_cases():
+    """to_bytes / is_negative / is_nonzero / == of a *lazily* added or subtracted pair whose integer value (before any reduction) sits
+    within 40 of 0, of +-p, of +-2^255 and of 2p: the quotient estimate of the final reduction is then decided by the last few units"""
+    out = []
+    xs = [1 << 254, (1 << 254) + (1 << 200) + 12345, int.from_bytes(pat(5, 0, 32), "little") & ((1 << 254) - 1), 19, (1 << 255) - 20]
+    targets = []
+    for c in (0, PP, 1 << 255, 2 * PP, (1 << 255) + PP):
+        targets += [c + d for d in range(-40, 41)]
+    for T in targets:
+        for x in xs:
+            y = T - x
+            if 0 <= y < (1 << 255) and 0 <= x < (1 << 255):
+                v = T % PP
+                out.append((["fe %s %s add bytes isneg isnz" % (le(x).hex(), le(y).hex())], ["%s.%s.%s" % (le(v).hex(), "T" if v & 1 else "F", "T" if v else "F")], None))
+                out.append((["fe %s %s add %s eq" % (le(x).hex(), le(y).hex(), le(v).hex())], ["T"], None))
+    # differences: x - y = T for T around 0, -p, -2^255 and +p (y, x below 2^255)
+    for c in (0, -PP, -(1 << 255) + 1, PP):
+        for d in range(-40, 41):
+            T = c + d
+            for x in (xs if T >= 0 else [0, 5, 1 << 200]):
+                y = x - T
+                if 0 <= y < (1 << 255) and 0 <= x < (1 << 255):
+                    v = T % PP
+                    out.append((["fe %s %s sub bytes isneg isnz" % (le(x).hex(), le(y).hex())], ["%s.%s.%s" % (le(v).hex(), "T" if v & 1 else "F", "T" if v else "F")], None))
+    return out
+
+
 def steer_cases(tier, part, nparts):
     """post-image steering: the *results* are the limb-field elements (so the final carry folds of every operation are driven with
     limb 0 next to 0 and next to its maximum while the top limb overflows); operands are obtained by inverting the operation in the
@@ -701,7 +728,7 @@ def shard_field3(_, tier):
 
 
 def shard_limbs(i, tier):
-    return _run(limb_cases(tier, i, NLIMBSH) + steer_cases(tier, i, NLIMBSH))
+    return _run(limb_cases(tier, i, NLIMBSH) + steer_cases(tier, i, NLIMBSH) + (lazy_sum_cases() if i == 0 else []))
 
 
 def shard_scalar_hooks(i, tier):
